@@ -265,7 +265,13 @@ class World:
         dt = self.dt
         t0 = self.t[name]
         getL, getx = flow_callables(fl, self.rate)
-        get_regime = None if cb in (None, NOCB) else (lambda t, x: cb)
+        if cb in (None, NOCB):
+            get_regime = None
+        elif cb >= 100:  # late switch: the current regime for the first half of the interval, then cb - 100
+            r0, tmid = m.regime, t0 + 0.5 * dt
+            get_regime = lambda t, x: r0 if t < tmid else cb - 100  # noqa: E731
+        else:
+            get_regime = lambda t, x: cb  # noqa: E731
         Fn = m.update_orientations(make_params(par), F, getL, (t0, t0 + dt, getx), get_regime=get_regime)
         return Fn, fl, dt
 
